@@ -47,7 +47,10 @@ class Deviant(object):
         self.conn = conn
         self.fn = fn
         self.index = 0
+        self.seq = 0            # counts every message incl. CCS/alert/data
+        self.cur_seq = -1
         self.sent = []
+        self.emitted = []       # (content type, bytes) really handed down
         self.applied = False
         self._orig_send = conn._sendMsg
         self._orig_queue = conn._queue_message
@@ -66,6 +69,8 @@ class Deviant(object):
             idx = -1
         if idx is None:
             return None
+        self.cur_seq = self.seq
+        self.seq += 1
         rep = self.fn(self, idx, ct, data)
         self.sent.append((idx, ct, data, rep))
         if rep is not None:
@@ -73,21 +78,27 @@ class Deviant(object):
         return rep
 
     def _send(self, msg, *a, **kw):
+        coalesced = type(msg).__name__ == "Message" and \
+            msg.contentType == ContentType.handshake
         rep = self._transform(msg)
         if rep is None:
+            if not coalesced:
+                self.emitted.append((msg.contentType, bytes(msg.write())))
             for r in self._orig_send(msg, *a, **kw):
                 yield r
             return
         for ct, data in rep:
+            self.emitted.append((ct, bytes(data)))
             for r in self._orig_send(RawMsg(ct, data), *a, **kw):
                 yield r
 
     def _queue(self, msg):
         rep = self._transform(msg)
         if rep is None:
+            self.emitted.append((msg.contentType, bytes(msg.write())))
             return self._orig_queue(msg)
         for ct, data in rep:
-            if ct != self.conn._buffer_content_type and \
-                    self.conn._buffer_content_type is not None:
-                continue
+            if ct != msg.contentType:
+                continue        # cannot mix content types in one flight
+            self.emitted.append((ct, bytes(data)))
             self._orig_queue(RawMsg(ct, data))
